@@ -429,6 +429,55 @@ def r6(F, R):
 
 
 
+def _flows_into(w, l, targets):
+    """Does the value of local l reach one of the locals `targets` through moves / map_err / into conversions?"""
+    seen = {l}
+    frontier = [l]
+    while frontier:
+        x = frontier.pop()
+        if x in targets:
+            return True
+        for bi, blk in enumerate(w.blocks):
+            for st in blk["stmts"]:
+                if st["k"] == "assign" and st["rv"]["k"] == "use" and st["rv"]["op"]["k"] in ("copy", "move") and st["rv"]["op"]["pl"]["l"] == x and not st["pl"]["p"]:
+                    if st["pl"]["l"] not in seen:
+                        seen.add(st["pl"]["l"])
+                        frontier.append(st["pl"]["l"])
+            t2 = blk["term"]
+            if t2["k"] == "call" and any(a["k"] in ("copy", "move") and a["pl"]["l"] == x for a in t2["args"]):
+                if t2["dest"]["l"] not in seen and strip_generics(t2["callee"].get("path", "")).endswith(("Result::map_err", "Into::into", "From::from")):
+                    seen.add(t2["dest"]["l"])
+                    frontier.append(t2["dest"]["l"])
+    return bool(seen & set(targets))
+
+
+def r8(F, R, w, mb):
+    R.rule("C12-R8", "one reader, one variable: every receive on the chain's mailbox in the worker (try_recv / recv / recv_timeout, helpers inlined) stores "
+                     "what it received into the mailbox variable that the loop examines; a receive whose result is only tested or dropped (a liveness probe) "
+                     "swallows a queued Pause or Resume")
+    if mb is None:
+        R.missing("C12-R8", "mailbox")
+        return
+    msg = mb[0]
+    n = 0
+    for bb, t in w.calls():
+        p = strip_generics(t["callee"].get("path", ""))
+        if not p.endswith(("Receiver::try_recv", "Receiver::recv", "Receiver::recv_timeout", "Receiver::try_iter", "Receiver::iter")):
+            continue
+        st_ = str(t["callee"].get("self_ty") or "") + " ".join(t["callee"].get("gargs", []) or [])
+        rty = w.local_ty(K.root_local(w, t["args"][0])) if t["args"] else ""
+        if "ChainCommand" not in st_ and "ChainCommand" not in rty and "ChainCommand" not in w.local_ty(t["dest"]["l"]):
+            continue
+        n += 1
+        site = "%s @%s" % (w.path, loc(t["span"]))
+        key = "%s:receive#%d" % (w.path, n)
+        if _flows_into(w, t["dest"]["l"], {msg}):
+            R.ok("C12-R8", key, site, "%s: the received command becomes the mailbox value" % p.split("::")[-1])
+        else:
+            R.bad("C12-R8", key, site, "%s: the command received here never reaches the mailbox variable the loop examines: a queued Pause / Resume is consumed and lost" % p.split("::")[-1])
+    R.floor("C12-R8", 3)
+
+
 def r7(F, R, w):
     R.rule("C12-R7", "no draw without a look at the mailbox (shape-independent): in the chain worker the draw call is not reachable from the entry of "
                      "the worker, nor from a previous draw, without passing a receive on the chain's mailbox -- a chain that starts, or loops, "
@@ -476,10 +525,11 @@ def run(F, R, config=None):
     r4(F, R)
     r5(F, R, w, mb)
     r6(F, R)
+    r8(F, R, w, mb)
     R.assume("std::sync::mpsc::Receiver::recv blocks until a message arrives or all senders are gone; try_recv never blocks")
     R.assume("commands reach a chain only through its own mailbox channel (C10-R3 capture inventory)")
 
 
-FEATURE_RULES = {"C12-R1": "parallel", "C12-R2": "parallel", "C12-R3": "parallel", "C12-R4": "parallel", "C12-R5": "parallel", "C12-R6": "parallel", "C12-R7": "parallel"}
+FEATURE_RULES = {"C12-R1": "parallel", "C12-R2": "parallel", "C12-R3": "parallel", "C12-R4": "parallel", "C12-R5": "parallel", "C12-R6": "parallel", "C12-R7": "parallel", "C12-R8": "parallel"}
 CONFIGS = ["all", "default"]
 SELFTEST = True
